@@ -1148,6 +1148,11 @@ func indexResetExcludesGroupCreation(c *eng.Ctx) {
 		gs := c.Some(f, invokeOn("", "SetSeq"), "group.SetSeq(seq)")
 		c.Check(ls.At(q.Instr).HasField(foMu, false), "queue-reset-under-map-lock", q.Instr, f,
 			"the queue is reset while lock4map is held (GetOrCreateConsumerGroup takes its write side and clamps a new group against the queue's current position)", "held: "+ls.At(q.Instr).String())
+		// F74: the hold is EXCLUSIVE - Sync computes the minimum group ack and applies it under the read side, an index reset
+		// under the read side as well can run between the two and the stale minimum is then accepted by the regrown log
+		c.Check(ls.At(q.Instr).HasField(foMu, true), "reset-holds-the-write-side", q.Instr, f,
+			"an index reset moves the queue and every group: it holds the WRITE side of lock4map, so that it cannot overlap Sync (read side), which would otherwise apply a minimum group ack computed before the reset to the queue after it - the queue-wide ack then lies beyond every group's ack",
+			"held: "+ls.At(q.Instr).String())
 		for i, g := range gs {
 			ok, why := ls.SameHold(q.Instr, g.Instr, foMu, false)
 			c.Check(ok, fmt.Sprintf("group-reset-in-the-same-hold[%d]", i), g.Instr, f,
